@@ -126,6 +126,9 @@ pub struct Case {
     /// limit: raw props byte to put into the .lzma header (overrides lc/lp/pb)
     #[serde(default)]
     pub props: Option<u8>,
+    /// limit: uncompressed-size field of the .lzma header (default u64::MAX = unknown)
+    #[serde(default)]
+    pub uncomp: Option<u64>,
 }
 
 fn est_value(r: Result<Result<u32, String>, String>) -> Value {
@@ -154,11 +157,13 @@ pub fn run_case(c: &Case) -> Value {
         "enc_lzma2" | "enc_lzma" => {
             res["estimate_kib"] = est_value(contain(|| Ok::<u32, String>(l.get_memory_usage())));
             let lzma2 = c.kind == "enc_lzma2";
+            // built before the measurement window: the harness's own copy of a preset dictionary is not the writer's
+            let mut o2 = Some(LZMA2Options { lzma_options: l.clone(), chunk_size: None::<NonZeroU64> });
             let r = contain(|| {
                 let w = Window::start(true);
                 let out: Result<(usize, usize), String> = (|| {
                     if lzma2 {
-                        let mut wr = LZMA2Writer::new(NullSink(0), LZMA2Options { lzma_options: l.clone(), chunk_size: None::<NonZeroU64> });
+                        let mut wr = LZMA2Writer::new(NullSink(0), o2.take().unwrap());
                         w.stop_logging();
                         let pc = w.peak();
                         wr.write_all(&data).map_err(|e| e.to_string())?;
@@ -263,7 +268,7 @@ pub fn run_case(c: &Case) -> Value {
             // a forged .lzma header (props, dict size, unknown size) followed by a few payload bytes
             let mut hdr = vec![c.props.unwrap_or(l.get_props())];
             hdr.extend_from_slice(&l.dict_size.to_le_bytes());
-            hdr.extend_from_slice(&u64::MAX.to_le_bytes());
+            hdr.extend_from_slice(&c.uncomp.unwrap_or(u64::MAX).to_le_bytes());
             hdr.extend_from_slice(&[0, 0, 0, 0, 0, 0, 0, 0]);
             let limit = c.limit_kib.unwrap_or(u32::MAX);
             res["need_kib"] = est_value(contain(|| lzma_get_memory_usage_by_props(l.dict_size, hdr[0]).map_err(|e| e.to_string())));
